@@ -26,4 +26,12 @@ def queries(tier):
                 unwind={"memcpy": 20, "memset": 60, "memmove": 20},
                 bounds="parent with two children (heap nodes); destroy of a symbolic target, linked or unlinked first, or clear + destroy of the parent",
                 outside="deeper trees; nodes with metatypes; clone"))
+    for (dp, ls) in (() if tier == "quick" else ((0, 0), (1, 0), (0, 1), (1, 1))):   # does not finish in 240 s: thorough tier only
+      qs.append(Q("node_clone_deep%d_list%d" % (dp, ls), "C14/clone.c", harness_defines={"DEEP": dp, "LIST": ls},
+                  units=["mptcore/node/%s.c" % f for f in "node_new node_destroy node_clear node_unlink gnode_after gnode_before gnode_pos node_locate node_clone tree_clone".split()] + ["mptcore/misc/identifier.c"],
+                  unwind_default=6, flags=["--memory-leak-check", "--max-field-sensitivity-array-size", "200"],
+                  fp=[(r"getnode", ["verif_gnode_pos_u", "node_locate"]), (r"_vptr\)\.(unref|clone)", ["h_none"])], stubs=["libc.c", "libc_loops.c"],
+                  unwind={"memcpy": 20, "memset": 60, "memmove": 20, "memcmp": 8, "strlen": 4},
+                  bounds="heap tree: root with two children, optionally one grandchild; mpt_tree_clone of the root or mpt_list_clone of the child list",
+                  outside="nodes with metatypes (clone failure paths); wider/deeper trees", timeout=1500))
     return qs
